@@ -43,11 +43,13 @@ const c19wArm = "c19w-arm"       // marker (tick op): from here on the namespace
 const c19wAccTags = "c19w-acc"   // marker (raw op): {acc user=self tags=X}
 const c19wNewGrp = "c19w-newgrp" // marker (raw op): {sub new set.tags=X}
 const c19wCred = "c19w-cred"     // marker (raw op): {set me cred={meth=email resp=...}} confirming the pending e-mail
+const c19wCredReq = "c19w-credreq" // marker (raw op): {set me cred={meth=vmail val=...}}: a new credential, no response yet
 const c19wMaxTags = 16           // wBoot: globals.maxTagCount
 
 type c19wNS struct {
 	Email  int      `json:"email"`            // 0 no validator, 1 validator without add_to_tags, 2 with add_to_tags
 	Tel    int      `json:"tel"`              // same
+	Vmail  int      `json:"vmail,omitempty"`  // same for the harness's working validator (validator_test.go): new credentials can be requested
 	Login  bool     `json:"login,omitempty"`  // basic authenticator add_to_tags
 	Extra  []string `json:"extra,omitempty"`  // further immutable namespaces (as declared by a REST authenticator)
 	Masked []string `json:"masked,omitempty"` // masked_tags
@@ -69,6 +71,9 @@ func (ns c19wNS) immutable() map[string]bool {
 	}
 	if ns.Tel == 2 {
 		out["tel"] = true
+	}
+	if ns.Vmail == 2 {
+		out[wValidatorName] = true
 	}
 	if ns.Login {
 		out["basic"] = true
@@ -199,10 +204,14 @@ func c19wGenTags(rt *rapid.T, rs []string, foreign []string) []string {
 func c19wGen(rt *rapid.T) c19wProg {
 	p := c19wProg{}
 	p.Cfg = wConfig{Users: 4, Root: gPct(rt, 75), NoPush: true}
+	if gPct(rt, 30) {
+		p.Cfg.Anon = []int{3} // user 3 is logged in at the anonymous level: an ordinary user all the same
+	}
 	p.NS = c19wNS{
 		Email: gPick(rt, []int{0, 1, 2, 2, 2}, "email"),
 		Tel:   gPick(rt, []int{0, 1, 2, 2}, "tel"),
 		Login: gPct(rt, 55),
+		Vmail: gPick(rt, []int{0, 1, 2, 2}, "vmail"),
 	}
 	if gPct(rt, 50) {
 		p.NS.Extra = []string{"org"}
@@ -404,6 +413,15 @@ func c19wGen(rt *rapid.T) c19wProg {
 			raw := wJSON(map[string]any{"sub": map[string]any{"id": "$id", "topic": "new", "set": map[string]any{"tags": tags}}})
 			p.Ops = append(p.Ops, wOp{K: "raw", S: s, A: raw, B: c19wNewGrp, X: tags})
 		case x < 78:
+			if p.NS.Vmail > 0 && gPct(rt, 45) {
+				// a new address is put up for validation (no response can be given yet), then tags are updated
+				raw := wJSON(map[string]any{"set": map[string]any{"id": "$id", "topic": "me", "cred": map[string]any{"meth": wValidatorName, "val": fmt.Sprintf("fresh%d@vmail.test", u)}}})
+				p.Ops = append(p.Ops, wOp{K: "raw", S: s, A: raw, B: c19wCredReq})
+				if gPct(rt, 50) {
+					p.Ops = append(p.Ops, wOp{K: "set", S: s, T: "me", A: "tags", X: c19wGenTags(rt, resUser(u), foreign)})
+				}
+				break
+			}
 			if p.NS.Cred && gPct(rt, 60) {
 				// the pending e-mail is confirmed (sometimes with a wrong response), then the account's tags are updated
 				resp := gPick(rt, []string{"123456", "123456", "123456", "000000"}, "resp")
@@ -650,6 +668,9 @@ func (o *c19wObs) arm() {
 	}
 	if ns.Tel > 0 {
 		globals.validators["tel"] = credValidator{addToTags: ns.Tel == 2}
+	}
+	if ns.Vmail > 0 {
+		wUseValidator(false, ns.Vmail == 2)
 	}
 	if ns.Cred && ns.Email > 0 {
 		globals.authValidators = map[auth.Level][]string{auth.LevelAuth: {"email"}}
@@ -945,6 +966,18 @@ func (o *c19wObs) after(w *wWorld, st *wStep) *kit.Viol {
 					u.tags = stored
 					o.class("credential-confirmed-tag-added")
 				}
+			}
+		}
+	case st.Op.K == "raw" && st.Op.B == c19wCredReq:
+		// a credential which is merely requested is nobody's validated address: the account's tags
+		// (the validator's reserved namespace included) stay as they are
+		if st.Login >= 0 {
+			u := o.users[st.Login]
+			if tags, _, _, ok := c19wUserRow(snap, w.users[st.Login].uid); ok {
+				if stored := c19wSet(tags); !c19wSameSet(stored, u.tags) {
+					return o.rep(kit.V("tags-changed-by-credential-request", "%s answered %d changed the tags of user %d from %q to %q although the credential has not been validated (validator indexes addresses: %v)", st.Req, code, st.Login, c19wList(u.tags), c19wList(stored), o.p.NS.Vmail == 2))
+				}
+				o.class("credential-requested")
 			}
 		}
 	case st.Op.K == "raw" && st.Op.B == c19wNewGrp:
